@@ -113,6 +113,10 @@ def classes():
     class OtherArgs(ArgsNamespace, render_cls=Other):
         x: int = 0
 
+    class PlainProbe(Probe):
+        """A user subclass that overrides nothing: every hook - the render-data finalizer in
+        particular - is INHERITED and must run for it exactly as for Probe."""
+
     class ChildProbe(Probe):
         """A child render class of Probe with render arguments of its own."""
 
@@ -120,7 +124,7 @@ def classes():
         y: int = 0
 
     _CLASSES.update(Probe=Probe, ProbeArgs=ProbeArgs, Other=Other, OtherArgs=OtherArgs,
-                    ChildProbe=ChildProbe, ChildArgs=ChildArgs)
+                    ChildProbe=ChildProbe, ChildArgs=ChildArgs, PlainProbe=PlainProbe)
     return _CLASSES
 
 
@@ -208,7 +212,8 @@ class RealIter:
         self.C = C
         n = init.get("n", 0)
         self.definite = n > 0
-        self.probe = C["Probe"](n, init.get("k", 0))
+        # every third walk runs on the subclass that only inherits its hooks
+        self.probe = C["PlainProbe" if variant % 3 == 2 else "Probe"](n, init.get("k", 0))
         if self.definite:
             self.probe.seek(1)  # the renderable's own current frame: must never move
         self.tell0 = self.probe.tell()
